@@ -483,6 +483,10 @@ type c03Hist struct {
 type c03Model struct {
 	tags, filters map[string]bool
 	frozen        bool
+	// maybe: a From* call FAILED before any template existed. The property freezes a set once it
+	// "has created its first template"; whether a failed attempt counts is not stated, so a ban
+	// that follows may be accepted or refused.
+	maybe bool
 }
 
 func c03ProbeSrc(kind, name string) string {
@@ -524,7 +528,11 @@ func checkC03Hist(c any, r *Rec) error {
 	probe := func(si int, kind, name string) error {
 		m := models[si]
 		_, err := sets[si].FromString(c03ProbeSrc(kind, name))
-		m.frozen = true
+		if err == nil {
+			m.frozen = true
+		} else {
+			m.maybe = true
+		}
 		banned := m.tags[name]
 		if kind == "filter" {
 			banned = m.filters[name]
@@ -561,6 +569,12 @@ func checkC03Hist(c any, r *Rec) error {
 				err = s.BanFilter(op.Name)
 			}
 			wantErr := !known || m.frozen || already
+			if m.maybe && !m.frozen && known && !already {
+				wantErr = err != nil // either outcome is admitted; a refusal settles that the set is frozen
+				if err != nil {
+					m.frozen = true
+				}
+			}
 			if wantErr != (err != nil) {
 				return fail("%s(%q) on set%d returned %v; known=%v frozen=%v already-banned=%v", op.Op, op.Name, si, err, known, m.frozen, already)
 			}
@@ -574,17 +588,33 @@ func checkC03Hist(c any, r *Rec) error {
 				refusedAfterFreeze = true
 			}
 		case "FromString":
-			_, _ = s.FromString(op.Name)
-			m.frozen = true
+			_, ferr := s.FromString(op.Name)
+			if ferr == nil {
+				m.frozen = true
+			} else {
+				m.maybe = true
+			}
 		case "FromBytes":
-			_, _ = s.FromBytes([]byte(op.Name))
-			m.frozen = true
+			_, ferr := s.FromBytes([]byte(op.Name))
+			if ferr == nil {
+				m.frozen = true
+			} else {
+				m.maybe = true
+			}
 		case "FromFile":
-			_, _ = s.FromFile(op.Name)
-			m.frozen = true
+			_, ferr := s.FromFile(op.Name)
+			if ferr == nil {
+				m.frozen = true
+			} else {
+				m.maybe = true
+			}
 		case "FromCache":
-			_, _ = s.FromCache(op.Name)
-			m.frozen = true
+			_, ferr := s.FromCache(op.Name)
+			if ferr == nil {
+				m.frozen = true
+			} else {
+				m.maybe = true
+			}
 		case "RenderTemplateString":
 			_, _ = s.RenderTemplateString("r {{ 2 }}", nil)
 			m.frozen = true
